@@ -113,16 +113,32 @@ QNameOf(ns, n) ==
     [] n.c = "type" /\ Len(n.rk) = 3 /\ n.rk[1] = "item" /\ n.rk[2] \in {"interface", "parcelable", "enum"} -> <<n.rk[3]>>
     [] OTHER -> <<"*">>
 
+\* the project item a type reference resolves to under the scoping rule of C05 (keys: key -> kinds), if that
+\* is determined; "" otherwise
+ResolvedItemKey(ns, n, keys) ==
+  LET A == AllowedRK(n.n, ns, keys)
+  IN IF Cardinality(A) = 1 THEN
+        LET rk == CHOOSE x \in A : TRUE
+        IN IF rk[1] = "item" /\ rk[2] \in {"interface", "parcelable", "enum"} THEN rk[3] ELSE ""
+     ELSE ""
+
+\* with the project keys known: a type symbol that resolves to a project item reports that item's key
+QNameOfK(ns, n, keys) ==
+  IF n.c = "type" /\ n.a = "named" /\ ResolvedItemKey(ns, n, keys) # "" THEN <<ResolvedItemKey(ns, n, keys)>>
+  ELSE IF n.c = "type" THEN <<"*">>
+  ELSE QNameOf(ns, n)
+
+
 \* expected plain name; <<"*">> = not stated
 PlainNameOf(n) ==
   CASE n.c \in {"item", "method", "const", "field", "elem"} -> <<n.n>>
     [] n.c = "arg" /\ n.b = "n" -> <<n.n>>
     [] OTHER -> <<"*">>
 
-NamesOK(ns, syms) ==
+NamesOK(ns, syms, keys) ==
   \A k \in DOMAIN syms :
      LET i == AtPath(ns, syms[k].p) IN
-     i # 0 => /\ (QNameOf(ns, ns[i]) = <<"*">> \/ syms[k].qname = QNameOf(ns, ns[i]))
+     i # 0 => /\ (QNameOfK(ns, ns[i], keys) = <<"*">> \/ syms[k].qname = QNameOfK(ns, ns[i], keys))
               /\ (PlainNameOf(ns[i]) = <<"*">> \/ syms[k].name = PlainNameOf(ns[i]))
 
 -----------------------------------------------------------------------------
